@@ -1,4 +1,4 @@
-import Dagrt.Proofs.Simplify
+import Dagrt.Proofs.SimplifyShape
 /-!
 # C06 — control-flow simplification never changes which statements run, or their order
 
@@ -44,6 +44,25 @@ theorem simplify_root_not_null (a a' : Ast) (h : simplify a = .ok a') : isNull a
     · rfl
     · rename_i hx; cases hp : post _ <;> simp_all [isNull]
 
+/-- Shape the back ends rely on: the simplified program contains no null node at all
+    (loops, conditionals and blocks whose content vanishes are removed) … -/
+theorem simplify_no_null (a a' : Ast) (h : simplify a = .ok a') : noNull a' = true := by
+  simp only [simplify, bind, Except.bind] at h
+  split at h
+  · cases h
+  · rename_i b hb
+    simp [pure, Except.pure] at h; subst h
+    have hn := simp_noIfThen (pre a) b (pre_noIfThen a) hb
+    unfold postTop
+    rcases post_shape b hn with h' | h'
+    · cases hp : post b <;> simp_all [isNull, noNull, noNullList]
+    · cases hp : post b <;> simp_all [isNull, noNull, noNullList]
+
+/-- … hence the generic walker of the structured back ends (`lower_node`) never meets a node
+    it has no case for -/
+theorem walker_total (a a' : Ast) (h : simplify a = .ok a') : ∃ evs, walk a' = some evs :=
+  walk_total a' (simplify_no_null a a' h)
+
 /-! non-vacuity / regression witnesses (the two defects of the pinned tree, repaired
     by the `fix:` commit, are now instances of the theorems) -/
 example : simplify (.block [.null]) = .ok (.block []) := by rfl
@@ -52,5 +71,7 @@ example : (match simplify (.block [.leaf 0, .block [.leaf 1, .leaf 2]]) with
 example : (match simplify (.block [.ite (.flag 0) (.leaf 1) .null, .ite (.not (.flag 0)) (.leaf 2) .null,
       .ite (.flag 0) (.leaf 3) .null]) with
     | .ok a' => trace (fun _ => false) (fun _ => 1) a' | .error _ => []) = [2] := by decide
+
+example : simplify (.loop 0 (.ite .ff (.leaf 1) .null)) = .ok (.block []) := by rfl
 
 end Dagrt.C06
